@@ -34,6 +34,8 @@ META = {
                "serial histories with the real decoder: ENABLE DEVICE TYPE a, extended frame X, ENABLE DEVICE "
                "TYPE b (or a plain frame), X again - a, b symbolic 0..255, X from 3 addresses x 8 opcodes",
                "Tridonic: four three-report histories with 120 ms gaps (two of them exceed one 200 ms window)",
+               "serial: an observed 16-bit frame then the 24-bit frame of the same number (8 representatives); "
+               "bursts of 80",
                "Tridonic: histories of 2 (thorough 3) reports x 11 report kinds x symbolic fields x gap "
                "shorter/longer than the timeout x own/observed origin; subscribers 0..2"],
     "stubs": ["fake os (harness environment)", "struct format interpreter in symbolic mode",
